@@ -162,13 +162,6 @@ void summarize_contract(dr_prune_nodes_stack * st, dr_dag_node * s, dr_dag_node_
   __CPROVER_ensures(s->info.logical_edge_counts[g_k] == g_ec[g_k])
   __CPROVER_ensures(s->info.kind == __CPROVER_old(s->info.kind));
 
-/* frame of the real dr_free_dag on the bounded DAG of h_free_dag: the root's summary is not in the clause */
-void free_dag_frame_contract(dr_dag_node * g, int free_root, dr_dag_node_freelist * fl)
-  __CPROVER_requires(g == &S && free_root == 0 && fl == &FL)
-  __CPROVER_assigns(g->subgraphs[0], fl->head, fl->tail,
-                    CH[0].next, CH[1].next, CH[2].next, CH[3].next, CT[0].next, CT[1].next, CT[2].next, CT[3].next)
-  __CPROVER_ensures(g->subgraphs->n == 0 && g->subgraphs->head == 0 && g->subgraphs->tail == 0);
-
 /* ------------------------------------------------------------------ harness helpers */
 
 static void setup_gs(void) {
@@ -374,82 +367,87 @@ void h_summarize(void) {
   VERIF_CANARY();
 }
 
-/* ---- bounded: the real dr_free_dag on a root with <= ACC_N children (leaf | contracted section | create + contracted task) */
+/* ------------------------------------------------------------------ bounded: contraction on one concrete DAG
+   The real dr_free_dag / dr_prune_nodes_norec (with the real dr_collapse_subgraph, dr_free_dag, dr_dag_node_free) on a
+   DAG of 10 nodes that contains every node kind; all summaries, the worker sets and the budget are nondeterministic:
+
+     S (section) -> CH[0] create ---child---> CT[0] (task) -> LF[0][0] other, LF[0][1] end
+                    CH[1] section -> LF[1][0] other, LF[1][1] wait
+                    CH[2] other
+                    CH[3] wait                                                                                      */
+#if ACC_N >= 4
+dr_dag_node LF[2][2];
+dr_dag_node * g_w;     /* witness node: any of the 10 */
+
+static void list_of(dr_dag_node * p, dr_dag_node * a, int m) {
+  p->subgraphs->n = m; p->subgraphs->head = &a[0]; p->subgraphs->tail = &a[m - 1];
+  for (int j = 0; j < 4; j++) if (j < m) a[j].next = (j + 1 < m) ? &a[j + 1] : 0;
+}
+static void leaf(dr_dag_node * p, dr_dag_node_kind_t k) {
+  *p = fresh_node(); p->info.kind = k; p->info.cur_node_count = 1; p->info.min_node_count = 1; p->info.worker = 0;
+}
+static void inner(dr_dag_node * p, dr_dag_node_kind_t k, long cur, long min_uncollapsed) {
+  _Bool one_worker = nondet_bool();           /* executed by one worker: collapsable, min_node_count == 1 */
+  p->info.kind = k; p->info.cur_node_count = cur; p->info.worker = one_worker ? 0 : -1;
+  p->info.min_node_count = one_worker ? 1 : min_uncollapsed;
+}
+static void build_dag10(void) {
+  leaf(&LF[0][0], dr_dag_node_kind_other); leaf(&LF[0][1], dr_dag_node_kind_end_task);
+  leaf(&LF[1][0], dr_dag_node_kind_other); leaf(&LF[1][1], dr_dag_node_kind_wait_tasks);
+  leaf(&CH[0], dr_dag_node_kind_create_task); leaf(&CH[2], dr_dag_node_kind_other); leaf(&CH[3], dr_dag_node_kind_wait_tasks);
+  CT[0] = fresh_node(); inner(&CT[0], dr_dag_node_kind_task, 3, 3); list_of(&CT[0], LF[0], 2); CT[0].active_section = &CT[0];
+  CH[0].child = &CT[0];
+  CH[1] = fresh_node(); inner(&CH[1], dr_dag_node_kind_section, 3, 3); list_of(&CH[1], LF[1], 2); CH[1].parent_section = &S;
+  S = fresh_node(); inner(&S, dr_dag_node_kind_section, 10, 1 + (1 + CT[0].info.min_node_count) + CH[1].info.min_node_count + 1 + 1);
+  list_of(&S, CH, 4); S.parent_section = 0;
+  int w = nondet_int(); __CPROVER_assume(0 <= w && w < 10);
+  g_w = w == 0 ? &S : w <= 4 ? &CH[w - 1] : w == 5 ? &CT[0] : &LF[(w - 6) / 2][(w - 6) % 2];
+  g_k = nondet_int(); __CPROVER_assume(0 <= g_k && g_k < 5);
+}
+#define DAG10_LINKS CH[0].next, CH[1].next, CH[2].next, CH[3].next, CT[0].next, LF[0][0].next, LF[0][1].next, LF[1][0].next, LF[1][1].next
+
+/* frame of the real dr_free_dag: `next` of the descendants, the root's list, the free list -- no summary of any node */
+void free_dag_frame_contract(dr_dag_node * g, int free_root, dr_dag_node_freelist * fl)
+  __CPROVER_requires(g == &S && free_root == 0 && fl == &FL)
+  __CPROVER_assigns(g->subgraphs[0], fl->head, fl->tail, DAG10_LINKS)
+  __CPROVER_ensures(g->subgraphs->n == 0 && g->subgraphs->head == 0 && g->subgraphs->tail == 0);
+
 void h_free_dag(void) {
   setup_gs();
-  build_closing_node();
-  for (int i = 0; i < ACC_N; i++) {           /* contracted sections / tasks have an empty list */
-    if ((int)CH[i].info.kind == dr_dag_node_kind_section) { CH[i].subgraphs->n = 0; CH[i].subgraphs->head = 0; CH[i].subgraphs->tail = 0; }
-    CT[i].subgraphs->n = 0; CT[i].subgraphs->head = 0; CT[i].subgraphs->tail = 0;
-  }
-  g_k = nondet_int(); __CPROVER_assume(0 <= g_k && g_k < 5);
-  dr_clock_t t1 = S.info.t_1, tinf = S.info.t_inf;
-  long nc = S.info.logical_node_counts[g_k < 4 ? g_k : 0], ec = S.info.logical_edge_counts[g_k], cur = S.info.cur_node_count;
-  int expect = 0;
-  for (int i = 0; i < ACC_N; i++) if (i < g_n) expect += ((int)CH[i].info.kind == dr_dag_node_kind_create_task) ? 2 : 1;
+  build_dag10();
+  dr_clock_t t1 = g_w->info.t_1, tinf = g_w->info.t_inf;
+  long nc = g_w->info.logical_node_counts[g_k < 4 ? g_k : 0], ec = g_w->info.logical_edge_counts[g_k], cur = S.info.cur_node_count;
   dr_free_dag(&S, 0, &FL);
-  __CPROVER_assert(S.info.t_1 == t1 && S.info.t_inf == tinf && S.info.cur_node_count == cur &&
-                   S.info.logical_node_counts[g_k < 4 ? g_k : 0] == nc && S.info.logical_edge_counts[g_k] == ec,
-                   "free_dag: the summary of the root is unchanged");
+  __CPROVER_assert(g_w->info.t_1 == t1 && g_w->info.t_inf == tinf && g_w->info.logical_node_counts[g_k < 4 ? g_k : 0] == nc &&
+                   g_w->info.logical_edge_counts[g_k] == ec && S.info.cur_node_count == cur,
+                   "free_dag: no summary is changed (root and freed nodes alike)");
   int len = 0; dr_dag_node * p = FL.head;
-  for (int i = 0; i < 2 * ACC_N + 1; i++) if (p) { len++; p = p->next; }
-  __CPROVER_assert(p == 0 && len == expect, "free_dag: every descendant is returned to the free list exactly once");
+  for (int i = 0; i < 10; i++) if (p) { len++; p = p->next; }
+  __CPROVER_assert(p == 0 && len == 9, "free_dag: every descendant is returned to the free list exactly once");
   VERIF_CANARY();
 }
 
-/* ---- bounded: the real dr_prune_nodes_norec (with the real collapse and free_dag) on a tree of <= 9 nodes:
-        S (section|task) -> CH[0..1] ; CH[i] = leaf | section{LF[i][0..1]} | create -> CT[i]{LF[i][0..1]}            */
-#define PR_N 2
-dr_dag_node LF[PR_N][2];
-static void list_of(dr_dag_node * p, dr_dag_node * a, int m) {
-  p->subgraphs->n = m; p->subgraphs->head = m ? &a[0] : 0; p->subgraphs->tail = m ? &a[m - 1] : 0;
-  a[0].next = (m > 1) ? &a[1] : 0; a[1].next = 0;
-}
-static void set_counts(dr_dag_node * p, long cur, _Bool one_worker) {
-  p->info.cur_node_count = cur; p->info.worker = one_worker ? 0 : -1; p->info.min_node_count = one_worker ? 1 : cur;
-}
+/* frame of the real prune: its own stack, cur_node_count of inner nodes, and the effects of collapse (emptied list,
+   freed descendants) -- never t_1, t_inf, logical_node_counts, logical_edge_counts */
 long prune_frame_contract(dr_prune_nodes_stack * st, dr_dag_node * s, long budget, dr_dag_node_freelist * fl)
   __CPROVER_requires(st == &PS && s == &S && fl == &FL)
   __CPROVER_assigns(st->n, __CPROVER_object_whole(ENT), fl->head, fl->tail,
-                    S.info.cur_node_count, S.subgraphs[0],
-                    CH[0].info.cur_node_count, CH[0].subgraphs[0], CH[0].next, CH[1].info.cur_node_count, CH[1].subgraphs[0], CH[1].next,
-                    CT[0].info.cur_node_count, CT[0].subgraphs[0], CT[0].next, CT[1].info.cur_node_count, CT[1].subgraphs[0], CT[1].next,
-                    LF[0][0].next, LF[0][1].next, LF[1][0].next, LF[1][1].next)
+                    S.info.cur_node_count, S.subgraphs[0], CH[1].info.cur_node_count, CH[1].subgraphs[0],
+                    CT[0].info.cur_node_count, CT[0].subgraphs[0])
   __CPROVER_ensures(__CPROVER_return_value == S.info.cur_node_count && S.info.cur_node_count >= 1);
 
-dr_dag_node * g_w;     /* witness node */
+/* collapse_contract (proved for an arbitrary node in job collapse.frame) instantiated at any inner node of the DAG */
+void collapse_any_contract(dr_dag_node * s, dr_dag_node_freelist * fl)
+  __CPROVER_requires((s == &S || s == &CH[1] || s == &CT[0]) && fl == &FL && IS_SECTION_OR_TASK(s))
+  __CPROVER_assigns(s->info.cur_node_count, s->subgraphs[0], fl->head, fl->tail)
+  __CPROVER_ensures(s->info.cur_node_count == 1)
+  __CPROVER_ensures(s->subgraphs->n == 0 && s->subgraphs->head == 0 && s->subgraphs->tail == 0);
+
 void h_prune(void) {
   setup_gs();
-  GS.opts.chk_level = 0;                       /* the recursive debug checkers dr_check_*_node_count are not evaluated */
-  g_is_task = nondet_bool();
-  S = nondet_node(); S.next = 0; S.info.kind = g_is_task ? dr_dag_node_kind_task : dr_dag_node_kind_section;
-  long total = 1;
-  for (int i = 0; i < PR_N; i++) {
-    CH[i] = nondet_node(); CT[i] = nondet_node(); LF[i][0] = nondet_node(); LF[i][1] = nondet_node();
-    int m = nondet_int(); __CPROVER_assume(0 <= m && m <= 2);
-    for (int j = 0; j < 2; j++) { LF[i][j].info.kind = dr_dag_node_kind_other; set_counts(&LF[i][j], 1, 1); }
-    if (m) LF[i][m - 1].info.kind = dr_dag_node_kind_wait_tasks;
-    int kd = nondet_int();
-    if (i == PR_N - 1) __CPROVER_assume(kd == (g_is_task ? dr_dag_node_kind_end_task : dr_dag_node_kind_wait_tasks));
-    else if (g_is_task) __CPROVER_assume(kd == dr_dag_node_kind_section || kd == dr_dag_node_kind_other);
-    else __CPROVER_assume(kd == dr_dag_node_kind_section || kd == dr_dag_node_kind_other || kd == dr_dag_node_kind_create_task);
-    CH[i].info.kind = (dr_dag_node_kind_t)kd;
-    CT[i].info.kind = dr_dag_node_kind_task; CT[i].next = 0;
-    if (kd == dr_dag_node_kind_section) { list_of(&CH[i], LF[i], m); set_counts(&CH[i], 1 + m, nondet_bool()); total += 1 + m; }
-    else if (kd == dr_dag_node_kind_create_task) {
-      CH[i].child = &CT[i]; set_counts(&CH[i], 1, 1);
-      if (m) LF[i][m - 1].info.kind = dr_dag_node_kind_end_task;
-      list_of(&CT[i], LF[i], m); set_counts(&CT[i], 1 + m, nondet_bool()); total += 2 + m;
-    } else { set_counts(&CH[i], 1, 1); total += 1; }
-  }
-  list_of(&S, CH, PR_N);
-  set_counts(&S, total, nondet_bool());
-  if (S.info.worker == -1) S.info.min_node_count = 1 + (CH[0].info.kind == dr_dag_node_kind_create_task ? 1 + CT[0].info.min_node_count : CH[0].info.min_node_count)
-                                                     + CH[1].info.min_node_count;
-  long budget = nondet_long(); __CPROVER_assume(-4 <= budget && budget <= 16);
-  int w = nondet_int(); __CPROVER_assume(0 <= w && w < 9);
-  g_w = w == 0 ? &S : w <= 2 ? &CH[w - 1] : w <= 4 ? &CT[w - 3] : &LF[(w - 5) / 2][(w - 5) % 2];
-  g_k = nondet_int(); __CPROVER_assume(0 <= g_k && g_k < 5);
+  GS.opts.chk_level = 0;                       /* the recursive debug walkers dr_check_*_node_count are not evaluated */
+  build_dag10();
+  long budget = nondet_long(); __CPROVER_assume(-2 <= budget && budget <= 12);
   dr_clock_t t1 = g_w->info.t_1, tinf = g_w->info.t_inf;
   long nc = g_w->info.logical_node_counts[g_k < 4 ? g_k : 0], ec = g_w->info.logical_edge_counts[g_k];
   long r = dr_prune_nodes_norec(&PS, &S, budget, &FL);
@@ -457,6 +455,7 @@ void h_prune(void) {
   __CPROVER_assert(g_w->info.logical_node_counts[g_k < 4 ? g_k : 0] == nc && g_w->info.logical_edge_counts[g_k] == ec,
                    "prune: interval and edge counts of every node are unchanged");
   __CPROVER_assert(PS.n == 0, "prune: its stack is empty again");
-  (void)r;
+  __CPROVER_assert(1 <= r && r <= 10, "prune: the materialised node count stays between 1 and the original 10");
   VERIF_CANARY();
 }
+#endif
